@@ -130,7 +130,7 @@ class _State:
 
 class Explorer:
     def __init__(self, fn, is_effect=None, pure=None, model=None, stop_at=(), max_paths=MAX_PATHS_DEFAULT,
-                 record_stores=True, bool_types=True, max_visits=1):
+                 record_stores=True, bool_types=True, max_visits=1, program=None, inline=None, depth=0):
         self.fn = fn
         self.is_effect = is_effect or (lambda c: False)
         self.pure = pure or (lambda c: False)
@@ -139,6 +139,10 @@ class Explorer:
         self.max_paths = max_paths
         self.record_stores = record_stores
         self.max_visits = max_visits
+        self.program = program
+        self.inline = inline
+        self.depth = depth
+        self.site_suffix = "" if depth == 0 else "@" + short(fn.id)
         self.results = []
         self.call_ord = {c.bb: c for c in fn.calls()}
 
@@ -532,6 +536,8 @@ class Explorer:
                 val = None
                 if self.model:
                     val = self.model(c, argd, st, self)
+                if val is None and self.inline and self.program is not None and self.try_inline(st, c, argv, bb, stack):
+                    return
                 if val is None:
                     val = self.default_call_value(c, argd)
                     nvis = st.visited.get(bb, 1)
@@ -642,6 +648,85 @@ class Explorer:
             self.finish(st, "unknown:" + k, bb)
             return
 
+    # -- inlining of small workspace helpers ----------------------------------------------------
+    def should_inline(self, c, callee):
+        if self.depth >= 2 or callee is self.fn:
+            return False
+        if self.is_effect(c) or self.pure(c):
+            return False
+        if callable(self.inline):
+            return bool(self.inline(c))
+        # 'auto': small, loop-free, non-closure-taking workspace function
+        if c.refs:
+            return False
+        live = [b for b in callee.blocks if not b["c"]]
+        if len(live) > 80:
+            return False
+        try:
+            if callee.sccs():
+                return False
+        except RecursionError:
+            return False
+        return True
+
+    def try_inline(self, st, c, argv, bb, stack):
+        callee = self.program.fns.get(c.resolved or "")
+        if callee is None or callee.kind == "Closure" or len(argv) != callee.argc:
+            return False
+        if not self.should_inline(c, callee):
+            return False
+        env = {}
+        for i, a in enumerate(argv):
+            v = a
+            if a[0] == "ref":
+                v = ("refv", self.read_place(st, (a[1][0], [list(e) if isinstance(e, tuple) else e for e in a[1][1]])))
+            env["_%d" % (i + 1)] = v
+        sub = Explorer(callee, is_effect=self.is_effect, pure=self.pure, model=self.model, max_paths=self.max_paths,
+                       record_stores=self.record_stores, max_visits=1, program=self.program, inline=self.inline,
+                       depth=self.depth + 1)
+        try:
+            sub_paths = sub.run(0, env)
+        except TooManyPaths:
+            return False
+        if not sub_paths or any(sp.end in ("loop", "stop") or sp.end.startswith("unknown") for sp in sub_paths):
+            return False
+        if len(sub_paths) > 64:
+            return False
+        base_ndec = len(st.decisions)
+        forks = []
+        for sp in sub_paths:
+            if sp.end in ("unreachable", "infeasible", "resume", "abort"):
+                continue
+            s2 = st.fork()
+            feasible = True
+            for (k, v) in sp.decisions:
+                if k in s2.decided and s2.decided[k] != v:
+                    prev = s2.decided[k]
+                    if not (isinstance(prev, tuple) and prev and prev[0] == "other"):
+                        feasible = False
+                        break
+                s2.decisions.append((k, v))
+                s2.decided[k] = v
+            if not feasible:
+                continue
+            for e in sp.effects:
+                s2.effects.append(Effect(e.kind, e.name, e.args, bb, e.line, e.call, base_ndec + e.ndec))
+            forks.append((s2, sp))
+        if not forks:
+            return False
+        # havoc locals whose &mut escapes into the call
+        for (s2, sp) in forks:
+            for a in argv:
+                if a[0] == "ref" and len(a) > 2 and a[2]:
+                    self.write_place(s2, (a[1][0], [list(e) if isinstance(e, tuple) else e for e in a[1][1]]),
+                                     ("atom", "mut:%s@%s#%d" % (place_key(a[1]), short(c.name), c.ordinal)), bb, c.line)
+            if sp.end == "ret" and c.target is not None:
+                self.write_place(s2, c.dest, sp.ret if sp.ret is not None else ("atom", "ret:" + short(c.name)), bb, c.line)
+                stack.append((s2, c.target))
+            else:
+                self.finish(s2, "diverge", bb)
+        return True
+
     def default_call_value(self, c, argv):
         n = c.name
         if n.endswith("::Try>::branch") or c.declared == "std::ops::Try::branch":
@@ -657,7 +742,7 @@ class Explorer:
             return ("atom", "box<%s>(%s)" % (c.ga[0], ",".join(vkey(a) for a in argv)))
         if self.pure(c):
             return ("atom", "%s(%s)" % (short(n), ",".join(vkey(a) for a in argv)))
-        return ("atom", "call:%s#%d" % (short(n), c.ordinal))
+        return ("atom", "call:%s#%d%s" % (short(n), c.ordinal, self.site_suffix))
 
 
 def explore(fn, start=0, env=None, **kw):
@@ -722,3 +807,36 @@ def check_table(paths, atom_of, spec, outcome_of, domains):
         if combo not in covered:
             uncovered.append(dict(zip(atoms, combo)))
     return {"deviations": deviations, "cells": cells, "uncovered": uncovered}
+
+
+def external_or(names=()):
+    """purity predicate for table rules: calls into other crates, Config getters and the listed leaf predicates are named
+    atoms; every other workspace function is a candidate for inlining (inline='auto')"""
+    def pred(c):
+        n = c.name
+        if not (n.startswith("rustfmt_nightly::") or n.startswith("<rustfmt_nightly::") or n.startswith("rustfmt::")
+                or n.startswith("cargo_fmt::") or n.startswith("rustfmt_format_diff::")):
+            return True
+        if n.startswith("rustfmt_nightly::config::Config::") or n.startswith("rustfmt_nightly::config::CliConfigSetter") \
+                or n.startswith("rustfmt_nightly::config::ConfigSetter"):
+            return True
+        return any(n.endswith(x) or x in n for x in names)
+    return pred
+
+
+def bool_outcome(v, atom_of):
+    """outcome of a bool-returning path for check_table: a constant, or a function of the assignment when the function
+    returns one of the table's atoms (or its negation) undecided"""
+    if v is None:
+        return None
+    if v[0] == "k" and isinstance(v[1], bool):
+        return v[1]
+    neg = False
+    while v[0] == "not":
+        v = v[1]
+        neg = not neg
+    m = atom_of(vkey(v), True)
+    if m is not None and m[1] is True:
+        a = m[0]
+        return (lambda assign, _a=a, _n=neg: (not assign[_a]) if _n else assign[_a])
+    return "dyn:" + vkey(v)
